@@ -12,6 +12,7 @@ import (
 	"sort"
 	"strconv"
 	"strings"
+	"time"
 
 	"github.com/segmentio/encoding/json"
 )
@@ -249,7 +250,38 @@ func c01Deep(c *Ctx) {
 	}
 }
 
+// c01Times: instants around the two ends of the RFC 3339 year range in zones east and west of UTC (the year that counts
+// is the one the time shows in its own location), sub-second digits, zone offsets with seconds
+func c01Times(c *Ctx) {
+	zones := []*time.Location{time.UTC, time.FixedZone("w", -3600), time.FixedZone("e", 3600), time.FixedZone("far", 14*3600), time.FixedZone("odd", -(9*3600 + 30*60)), time.FixedZone("sec", 3601)}
+	var ts []time.Time
+	for _, z := range zones {
+		for _, y := range []int{-1, 0, 1, 9999, 10000} {
+			ts = append(ts, time.Date(y, 1, 1, 0, 30, 0, 0, z), time.Date(y, 12, 31, 23, 30, 0, 0, z), time.Date(y, 6, 15, 12, 0, 0, 123456789, z))
+		}
+		ts = append(ts, time.Date(2021, 3, 25, 21, 36, 12, 500000000, z), time.Date(2021, 3, 25, 21, 36, 12, 1, z), time.Date(2021, 3, 25, 21, 36, 12, 120000000, z))
+	}
+	for i, t := range ts {
+		k := jsonCase{Setting: fmt.Sprintf("time:%d", i)}
+		for _, x := range []any{t, &t, []time.Time{t}, map[string]time.Time{"t": t}, struct {
+			T time.Time  `json:"t,omitempty"`
+			P *time.Time `json:"p"`
+		}{t, &t}, map[string]any{"t": t}} {
+			c.Case()
+			wb, we := stdjson.Marshal(x)
+			var gb []byte
+			var ge error
+			if p := protect(func() { gb, ge = json.Marshal(x) }); p != "" {
+				c.Diverge("C01", fmt.Sprintf("json.Marshal(%T)", x), errStr(we)+" "+clipS(string(wb)), p, "", k)
+				continue
+			}
+			c01Compare(c, k, fmt.Sprintf("json.Marshal(%T holding a time)", x), wb, we, gb, ge, "")
+		}
+	}
+}
+
 func c01Numbers(c *Ctx) {
+	c01Times(c)
 	c01Deep(c)
 	pow := new(big.Int).SetInt64(1)
 	ten := big.NewInt(10)
@@ -282,6 +314,10 @@ func c01Replay(c *Ctx, raw stdjson.RawMessage) {
 	}
 	if strings.HasPrefix(k.Setting, "deep:") {
 		c01Deep(c)
+		return
+	}
+	if strings.HasPrefix(k.Setting, "time:") {
+		c01Times(c)
 		return
 	}
 	if strings.HasPrefix(k.Setting, "number:") {
